@@ -111,12 +111,24 @@ def run(chk, scratch):
                             f.write("%s\t%s\n" % (name, g))
                 extra += ["--read_group", "file:%s:0:1" % tbl]
         out = os.path.join(d, "out")
+        if mode == "file" and hs in (7, 9):
+            # the run is killed while the read -> group table is being split per chromosome (right after the second file of that stage
+            # was opened) and then resumed: the finished run must still count every read under the group of its table row
+            r1 = pipeline.run(d, out, threads=threads, bam=bams, extra=extra, hashseed=str(hs), mon=["crash"],
+                              cfg={"crash_root": out, "crash_path": ".read_group_", "crash_path_k": 2, "crash_after": True}, events=out + "_ev")
+            if r1["rc"] == 137:
+                r = runner.run_isoquant(["--resume", "-o", out], os.path.join(d, "home"), hashseed=str(hs))
+                r["resumed"] = True
+                return job, d, w, truth, out, r
+            return job, d, w, truth, out, r1
         r = pipeline.run(d, out, threads=threads, bam=bams, extra=extra, hashseed=str(hs))
         return job, d, w, truth, out, r
     cells = 0
     for job, d, w, truth, out, r in runner.parallel(one, jobs, workers=8):
         seed, mode, fmt, hs, threads, ng = job
-        desc = "world=%d mode=%s format=%s hashseed=%d threads=%d groups=%d" % (seed, mode, fmt, hs, threads, ng)
+        desc = "world=%d mode=%s format=%s hashseed=%d threads=%d groups=%d%s" % (seed, mode, fmt, hs, threads, ng, " [killed while the group table was split, resumed]" if r.get("resumed") else "")
+        if r.get("resumed"):
+            chk.count("killed_and_resumed_runs_judged")
         wit = {"world_seed": seed, "mode": mode, "format": fmt, "hashseed": hs, "threads": threads, "groups": ng}
         if r["rc"] is None:
             chk.inconclusive.append("watchdog expired: " + desc)
